@@ -688,6 +688,11 @@ func processBuilder(ctx TaggedStructContext, genMethod fp.Set[string]) fp.Set[st
 
 	if _, ok := ts.Tags.Get("@fp.Builder").Unapply(); ok {
 
+		// @fp.Value has generated the builder already (processValue), unless the struct has no
+		// field for it to work on
+		if ts.Tags.Contains("@fp.Value") && applyFields(ts).Size() > 0 {
+			return genMethod
+		}
 		genMethod = genBuilder(ctx, genMethod)
 	}
 
